@@ -63,6 +63,15 @@ enum Op6 {
     Retract(usize),
     FireAll,
     Reset,
+    /// `set_conflict_resolution_strategy(k-th strategy)`: orders the agenda, decides nothing about WHAT fires
+    SetStrategy(usize),
+}
+
+const STRATEGIES: [&str; 7] = ["Salience", "LEX", "MEA", "Depth", "Breadth", "Simplicity", "Complexity"];
+
+fn strategy(k: usize) -> rust_rule_engine::rete::agenda::ConflictResolutionStrategy {
+    use rust_rule_engine::rete::agenda::ConflictResolutionStrategy as S;
+    [S::Salience, S::LEX, S::MEA, S::Depth, S::Breadth, S::Simplicity, S::Complexity][k % 7]
 }
 
 struct Case {
@@ -269,6 +278,15 @@ fn gen_case(s: &mut Src, exh: u32) -> Case {
             if let Op6::Insert(_, d) = &mut ops[k] {
                 d.twin ^= bit;
             }
+        }
+    }
+    // drawn last of all: in one history in three the conflict-resolution strategy is chosen (again) at one or two
+    // points of the history -- before the first step, between any two steps
+    if s.chance(1, 3) {
+        for _ in 0..1 + s.below(2) {
+            let at = s.below(ops.len());
+            let k = s.below(STRATEGIES.len());
+            ops.insert(at, Op6::SetStrategy(k));
         }
     }
     Case { rules, ops }
@@ -586,6 +604,10 @@ pub fn run(s: &mut Src, ctx: &mut Ctx) -> Verdict {
                         return Verdict::fail("retract-retracted-accepted", format!("op {}: retract of a retracted handle returned Ok", oi));
                     }
                 }
+            }
+            Op6::SetStrategy(k) => {
+                engine.set_conflict_resolution_strategy(strategy(*k));
+                ctx.label("strategy-chosen-mid-history");
             }
             Op6::Reset => {
                 engine.reset();
